@@ -56,6 +56,7 @@ pipe_reap(void *arg)
 	nni_pipe *p = arg;
 
 	NNI_VERIF_PT(NNI_VP_PIPE_REAP_BEFORE_CLOSE);
+	nni_pipe_wait_started(p);
 	p->p_proto_ops.pipe_close(p->p_proto_data);
 
 	// Close the underlying transport.
